@@ -14,6 +14,8 @@
  *   G <path>                    dbus_connection_get_object_path_data
  *   C <path>                    method call com.example.T.M to <path>
  *   c <path>                    method call M without INTERFACE to <path>
+ *   D <path>                    method call com.example.T.Destroy to <path>: the handler that takes it unregisters its own
+ *                               registration from inside the handler, then replies (prints two result objects)
  *   P <path>                    org.freedesktop.DBus.Peer.Ping to <path>
  *   I <path>                    org.freedesktop.DBus.Introspectable.Introspect to <path>
  * stdout: {"ops":[ per-op result objects ],"final_unreg":[ids whose unregister callback ran at teardown]}
@@ -21,7 +23,7 @@
 #include "hcommon.h"
 #include <test/test-utils.h>
 
-typedef struct { int id; int declines; } Handler;
+typedef struct { int id; int declines; char *path; } Handler;
 
 static TestMainContext *ctx;
 static DBusConnection *server_conn;
@@ -36,6 +38,7 @@ h_unregister (DBusConnection *c, void *data)
   Handler *h = data;
   if (n_unreg < 1024) unreg[n_unreg] = h->id;
   n_unreg++;
+  free (h->path);
   free (h);
 }
 
@@ -53,6 +56,14 @@ h_message (DBusConnection *c, DBusMessage *m, void *data)
   n_inv++;
   if (h->declines)
     return DBUS_HANDLER_RESULT_NOT_YET_HANDLED;
+  if (dbus_message_is_method_call (m, "com.example.T", "Destroy"))
+    {
+      /* the object removes itself from inside its own handler (the usual Destroy()/Close() pattern); this runs
+       * h_unregister, which frees h */
+      char *own = strdup (h->path);
+      if (!dbus_connection_unregister_object_path (c, own)) exit (3);
+      free (own);
+    }
   reply = dbus_message_new_method_return (m);
   if (reply == NULL) exit (3);
   if (!dbus_message_append_args (reply, DBUS_TYPE_UINT32, &id, DBUS_TYPE_INVALID)) exit (3);
@@ -180,7 +191,7 @@ int main (void)
               {
                 Handler *h = malloc (sizeof *h);
                 dbus_bool_t ok;
-                h->id = id; h->declines = declines;
+                h->id = id; h->declines = declines; h->path = strdup (p);
                 dbus_error_init (&err);
                 if (op == 'R')
                   ok = dbus_connection_try_register_object_path (server_conn, p, &vtable, h, &err);
@@ -191,6 +202,7 @@ int main (void)
                 else
                   {
                     printf ("{\"op\":\"reg\",\"ok\":0,\"err\":\"%s\"}", dbus_error_is_set (&err) ? err.name : "");
+                    free (h->path);
                     free (h);
                   }
                 if (dbus_error_is_set (&err)) dbus_error_free (&err);
@@ -225,6 +237,14 @@ int main (void)
                 break;
               }
             case 'C': do_call (cc, p, "com.example.T", "M", 'C'); break;
+            case 'D':
+              before = n_unreg;
+              do_call (cc, p, "com.example.T", "Destroy", 'D');
+              /* do_call printed one object; append which unregister callbacks ran */
+              fputs (",{\"op\":\"destroyed\",\"cb\":", stdout);
+              put_ids (unreg + before, n_unreg - before, 1024 - before);
+              putchar ('}');
+              break;
             case 'c': do_call (cc, p, NULL, "M", 'c'); break;
             case 'P': do_call (cc, p, "org.freedesktop.DBus.Peer", "Ping", 'P'); break;
             case 'I': do_call (cc, p, "org.freedesktop.DBus.Introspectable", "Introspect", 'I'); break;
